@@ -618,8 +618,8 @@ void meshMutant(vh::Ctx& c, vh::Rng r, std::vector<Deferred>& hot) {
       kind2 = kMeshKinds[r.below(kNumMeshKinds)];
       if (kind2 != kind && kind2 != "none" && !isHot(meshLabel(kind2)) && kind2.rfind("sharp-", 0) != 0) {
         // the first mutation may have emptied a vector the second indexes into
-        bool sane = is64 ? (m64.numProp > 0 && m64.vertProperties.size() >= m64.numProp && m64.triVerts.size() >= 3)
-                         : (m32.numProp > 0 && m32.vertProperties.size() >= m32.numProp && m32.triVerts.size() >= 3);
+        bool sane = is64 ? (m64.numProp >= 3 && m64.vertProperties.size() >= m64.numProp && m64.triVerts.size() >= 3)
+                         : (m32.numProp >= 3 && m32.vertProperties.size() >= m32.numProp && m32.triVerts.size() >= 3);
         if (sane && (is64 ? mutateMesh(m64, kind2, rm, sharp) : mutateMesh(m32, kind2, rm, sharp))) lab = kind + "+" + kind2;
       }
     }
